@@ -558,6 +558,21 @@ def main2(tier, replay, pool):
         elif ci == 3:  # constructor keywords named like the wrappers' parameters, from two threads
             d = gen_valid(rng, tier, force="names")
             u = [["instkw", I.targets_of(d)[-1]], [rng.choice(USE_KINDS), rng.choice(I.targets_of(d))]]
+        elif ci == 4:  # parent and child without any __new__, both threads instantiate the child first:
+            # the window between the removal of the child's hook and of the parent's (seeded C19-B1)
+            while len(d["classes"]) < 2:
+                d = gen_valid(rng, tier)
+            d = json.loads(json.dumps(d))
+            for c in d["classes"]:
+                c["new"] = False
+                if c.get("mid"):
+                    c["mid"]["new"] = False
+            if d["sub"]:
+                d["sub"]["new"] = False
+            leafs = [len(d["classes"]) - 1] + (["sub"] if d["sub"] else [])
+            u = [[rng.choice(["inst", "instkw", "helper"]), len(d["classes"]) - 1],
+                 [rng.choice(["inst", "instkw", "helper"]), rng.choice(leafs)]]
+        nth = len(u)
         if time.time() > deadline:
             truncated.append(f"configuration {ci}")
             continue
